@@ -477,12 +477,18 @@ pub fn gen(rng: &mut Rng, n: usize, thorough: bool, emit: &mut dyn FnMut(String)
             emit_twin(&c, &d, &probes, None, emit);
         }
     }
+    // System slice (harness/src/sys.rs): the whole pipeline with real file appenders, pattern encoders
+    // and threshold filters over histories of records; cases whose first field is the literal `sys`
+    crate::sys::gen(rng, if thorough { 3000 } else { 300 }, thorough, emit);
 }
 
 // ------------------------------------------------------------------------------------------------
 // execution on the real code
 // ------------------------------------------------------------------------------------------------
 pub fn exec(fields: &[&str]) -> String {
+    if fields.first() == Some(&"sys") {
+        return crate::sys::exec(fields);
+    }
     if fields.len() != 5 && fields.len() != 6 && fields.len() != 10 {
         return "bad-case".to_owned();
     }
